@@ -679,6 +679,10 @@ func (s *Service) serve(nc Conn) error {
 		go s.startWorker()
 	}
 
+	// Set the default ownership before other goroutines are let in by the
+	// started state, as ResetAll sets it too.
+	s.setDefaultOwnership()
+
 	atomic.StoreInt32(&s.state, stateStarted)
 
 	err = s.subscribe(nc, inCh)
